@@ -74,7 +74,7 @@ func (s *sessionMetadatasState) Create(id string, clientID string, connectedAt i
 		LWT:         lwt,
 		MountPoint:  mountpoint,
 		Peer:        s.peer,
-		LastAdded:   clock(),
+		LastAdded:   nextTimestamp(crdt.GetLastEntryUpdate(&session)),
 	}
 	err := s.set(session)
 	if err != nil {
@@ -106,7 +106,7 @@ func (s *sessionMetadatasState) Delete(id string) error {
 	if !ok || crdt.IsEntryRemoved(&session) {
 		return nil
 	}
-	session.LastDeleted = clock()
+	session.LastDeleted = nextTimestamp(crdt.GetLastEntryUpdate(&session))
 	err := s.set(session)
 	if err != nil {
 		return err
@@ -186,7 +186,7 @@ func (s *sessionMetadatasState) DeletePeer(peer uint64) error {
 	event := &api.StateBroadcastEvent{SessionMetadatas: []*api.SessionMetadatas{}}
 	for _, session := range sessions {
 		session := session // the event keeps a pointer to each entry: do not alias the loop variable
-		session.LastDeleted = clock()
+		session.LastDeleted = nextTimestamp(crdt.GetLastEntryUpdate(&session))
 		event.SessionMetadatas = append(event.SessionMetadatas, &session)
 		s.set(session)
 	}
